@@ -34,6 +34,9 @@ CLAIMS = {
  'C08': ("Unbounded theorem over every byte stream and every history of calls: each successful RandomSecret result is the unpadded upper-case RFC 4648 text of exactly 20/32/64 consecutive "
          "stream bytes starting where the previous call stopped (each byte used once), contains only A-Z2-7, and DecodeSecret maps it back to those bytes; an unsupported hash yields an error and reads nothing.",
          "The random source is an explicit stream; that crypto/rand.Reader's default is the operating system's CSPRNG is the Go runtime's and is not modelled (partial there). The harness substitutes rand.Reader by a recording stream and compares sequential histories with the model, interleaved ones by multiset of recorded reads.", "6 C08"),
+ 'C09': ("Certificate theorem + finite facts: over the SSA form of the code regenerated on every run (native: library + REST; js/wasm: library + binding) the analysis of Model/Flow.v finds no comparison (and no call leaving the analysed packages, other than listed output functions) whose operands carry both HMAC-derived and caller-derived data, and no branch on an HMAC-derived condition (explicit flows plus control dependence) that controls a comparison of caller-derived data; "
+         "the tainted sets are checked to be closed supersets of the sources and closed_sound / no_leak_sound prove that such a certificate covers every flow path of the fact base (vm_compute on the regenerated facts, unbounded induction over paths).",
+         "Partial by nature: time itself is not modelled, only the data-flow statement the property reduces it to; micro-architectural timing and the constant-timeness of crypto/subtle.ConstantTimeCompare are Go's. The edge rules, control dependence and source/barrier classification live in tools/gen_ssa and are trusted to over-approximate explicit data flow (field/index/context-insensitive; table look-ups keyed by data are not tracked). A leak site is reported with the instruction (file:line) as replay and no-failing-input-found, since a timing difference has no single failing input.", "6 C09"),
  'C10': ("Unbounded theorems: in the model every Go operation that can panic (index, slice bound, division, negative make) has the explicit outcome Panic, and no exported operation has that outcome for any argument value: DecodeSecret, Generate/Validate HOTP/TOTP (all digits/hash/period/skew/counter/instant values, absent parameters), Generate/Validate OCRA and the derivation (all configurations and inputs), RandomSecret, the input helpers, NewRawSuite / the parser / NewSuite (all strings), the URL builders and ParseOTPAuthURL (all URLs and nil).",
          "Hangs are excluded by totality of the model plus the derivation bound of C04; the harness runs a hostile stream (every uint8 enum value, boundary integers, invalid UTF-8, 64 KiB strings, nil/empty/oversized byte fields, arbitrary suite configurations and URLs) under recover() and a per-case watchdog and compares outcome and value with the model. Stack or heap exhaustion is the Go runtime's and is not modelled. The inventory of potentially panicking SSA instructions planned in DESIGN.md is not built.", "6 C10"),
  'C13': ("Unbounded theorems: every validation model (HOTP, TOTP, OCRA) returns (true,nil) or (false,error) for all inputs; the error of a validation step does not depend on the HMAC function (hence not on the expected code); "
